@@ -83,11 +83,11 @@ Theorem accepted_iff_positive : forall b def,
 Proof. exact accepted_iff_positive_lemma. Qed.
 Print Assumptions accepted_iff_positive.
 
-(* enlarging a message never decreases the load — for a POSITIVE baud rate (the property says
+(* enlarging a message never decreases the load — for a POSITIVE baud rate and ANY bus type value (the property says
    non-zero; for a negative one the claim is false, see monotone_negative_baud_refuted; for zero the
    load stays 0, see monotone_zero_baud) *)
 Theorem monotone_size_pos_baud : forall b b' def load es load' es' l1 l2 m m',
-  (0 < def)%Z -> (0 < b_baud b)%Z -> b_baud b' = b_baud b -> b_typ b = 0%Z -> b_typ b' = 0%Z ->
+  (0 < def)%Z -> (0 < b_baud b)%Z -> b_baud b' = b_baud b -> b_typ b' = b_typ b ->
   bus_msgs b = l1 ++ m :: l2 -> bus_msgs b' = l1 ++ m' :: l2 ->
   valid_msg m -> m_cycle m' = m_cycle m -> (m_size m <= m_size m')%Z ->
   calculate_bus_load b def = BLOk load es -> calculate_bus_load b' def = BLOk load' es' ->
@@ -97,7 +97,7 @@ Print Assumptions monotone_size_pos_baud.
 
 (* shortening its (effective) cycle time never decreases the load — for a positive baud rate *)
 Theorem antitone_cycle_pos_baud : forall b b' def load es load' es' l1 l2 m m',
-  (0 < def)%Z -> (0 < b_baud b)%Z -> b_baud b' = b_baud b -> b_typ b = 0%Z -> b_typ b' = 0%Z ->
+  (0 < def)%Z -> (0 < b_baud b)%Z -> b_baud b' = b_baud b -> b_typ b' = b_typ b ->
   bus_msgs b = l1 ++ m :: l2 -> bus_msgs b' = l1 ++ m' :: l2 ->
   valid_msg m -> m_size m' = m_size m ->
   (0 < cycle_or_default (m_cycle m') def <= cycle_or_default (m_cycle m) def)%Z ->
@@ -174,8 +174,8 @@ Print Assumptions load_ignores_delay.
 
 (* The float64 link (coq/C17/FloatBound.v), w.r.t. Flocq's IEEE-754 binary64 semantics: the Go
    computation, modelled operation by operation in Go's order with round-to-nearest-even
-   (`load_float`), never overflows on the domain `float_domain` (CAN 2.0A, 1..900 messages, sizes
-   0..8, cycles 0..3600000, default 1..3600000, 1 <= baud < 2^53) and its result is within the
+   (`load_float`), never overflows on the domain `float_domain` (any bus type value, 1..900 messages,
+   sizes 0..8 (1..8 for a type other than CAN 2.0A), cycles 0..3600000, default 1..3600000, 1 <= baud < 2^53) and its result is within the
    relative bound n * 2^-50 of the exact rational load — the bound the correspondence check uses —
    whatever the order in which the messages are visited.  Uses the standard-library real-number
    axioms through Flocq (listed by Print Assumptions).  Trusted: Go's float64 is IEEE-754 binary64. *)
@@ -186,3 +186,49 @@ Theorem load_float_close : forall b def load es,
       <= INR (length (bus_msgs b)) * bpow radix2 (-50) * Q2R load)%R.
 Proof. exact Acme.C17.FloatBound.load_float_close_lemma. Qed.
 Print Assumptions load_float_close.
+
+(* the float64 BitsPerSec of every message is finite and within 2^-51 (relative) of its exact rate *)
+Theorem rate_float_close : forall b def m,
+  Acme.C17.FloatBound.float_domain b def -> In m (bus_msgs b) ->
+  is_finite 53 1024 (Acme.C17.FloatBound.rate_float b def m) = true
+  /\ (Rabs (B2R 53 1024 (Acme.C17.FloatBound.rate_float b def m) - Q2R (bps (b_typ b) def m))
+      <= bpow radix2 (-51) * Q2R (bps (b_typ b) def m))%R.
+Proof. exact Acme.C17.FloatBound.rate_float_close_lemma. Qed.
+Print Assumptions rate_float_close.
+
+(* order under rounding.  Rounding is monotone: a message with a larger (or equal) exact rate never
+   has a smaller float64 rate ... *)
+Theorem rate_float_order : forall b def m m',
+  Acme.C17.FloatBound.float_domain b def -> In m (bus_msgs b) -> In m' (bus_msgs b) ->
+  bps (b_typ b) def m <= bps (b_typ b) def m' ->
+  (B2R 53 1024 (Acme.C17.FloatBound.rate_float b def m) <= B2R 53 1024 (Acme.C17.FloatBound.rate_float b def m'))%R.
+Proof. exact Acme.C17.FloatBound.rate_float_order_lemma. Qed.
+Print Assumptions rate_float_order.
+
+(* ... so a strictly larger float64 rate means a strictly larger exact rate: in a list sorted by
+   non-increasing float64 rate two entries can be in the "wrong" exact order only if their float64
+   rates are equal (a tie created by rounding) ... *)
+Theorem rate_float_strict : forall b def m m',
+  Acme.C17.FloatBound.float_domain b def -> In m (bus_msgs b) -> In m' (bus_msgs b) ->
+  (B2R 53 1024 (Acme.C17.FloatBound.rate_float b def m') < B2R 53 1024 (Acme.C17.FloatBound.rate_float b def m))%R ->
+  bps (b_typ b) def m' < bps (b_typ b) def m.
+Proof. exact Acme.C17.FloatBound.rate_float_strict_lemma. Qed.
+Print Assumptions rate_float_strict.
+
+(* ... and the order the exact model returns is itself non-increasing in the float64 rates *)
+Theorem model_order_float_sorted : forall b def load es,
+  Acme.C17.FloatBound.float_domain b def -> calculate_bus_load b def = BLOk load es ->
+  StronglySorted (fun a c => (B2R 53 1024 (Acme.C17.FloatBound.rate_float b def (e_msg c))
+                              <= B2R 53 1024 (Acme.C17.FloatBound.rate_float b def (e_msg a)))%R) es.
+Proof. exact Acme.C17.FloatBound.model_order_float_sorted_lemma. Qed.
+Print Assumptions model_order_float_sorted.
+
+(* enlarging messages / shortening cycle times never decreases the FLOAT64 load, for the same
+   visiting order (no slack: rounding is monotone) *)
+Theorem load_float_monotone : forall b b' def,
+  Acme.C17.FloatBound.float_domain b def -> Acme.C17.FloatBound.float_domain b' def ->
+  b_typ b' = b_typ b -> b_baud b' = b_baud b ->
+  Forall2 (Acme.C17.FloatBound.grows (b_typ b) def) (bus_msgs b) (bus_msgs b') ->
+  (B2R 53 1024 (Acme.C17.FloatBound.load_float b def) <= B2R 53 1024 (Acme.C17.FloatBound.load_float b' def))%R.
+Proof. exact Acme.C17.FloatBound.load_float_monotone_lemma. Qed.
+Print Assumptions load_float_monotone.
